@@ -52,6 +52,14 @@ for name in names:
 # leave generated files as the pristine tree produces them
 for pid in sorted({r[0] for r in results.values()}):
     subprocess.run([os.path.join(here, "check"), pid], cwd=here, capture_output=True, text=True)
+# keep the outcome of the latest run of every seeded change (read by tools/seeded_table.py for DESIGN.md)
+resfile = os.path.join(seeded, "results.json")
+allres = json.load(open(resfile)) if os.path.exists(resfile) else {}
+head = subprocess.run(["git", "-C", "/repo", "rev-parse", "--short", "HEAD"], capture_output=True, text=True).stdout.strip()
+for n, r in results.items():
+    allres[n] = {"property": r[0], "status": r[1], "how": r[2], "tier": tier, "repo_head": head,
+                 "replays": [os.path.basename(x).split(" ")[0] for x in r[3]]}
+json.dump(allres, open(resfile, "w"), indent=1, sort_keys=True)
 missed = [n for n, r in results.items() if r[1] != "DETECTED"]
 print(f"{len(results) - len(missed)}/{len(results)} detected; missed: {missed}")
 sys.exit(1 if missed else 0)
